@@ -115,7 +115,7 @@ def run_case(env, label, op, at, status, index, n):
     if env.version.endswith("+reboot"):
         warm, wexc = ops.run_op(env.client, ("get", (1, 3, 2, 1, 0)))
         if wexc is not None or warm != DB[(1, 3, 2, 1, 0)]:
-            raise world.HarnessError("warm-up exchange failed: %r %r" % (warm, wexc))
+            raise world.ScenarioUnavailable("warm-up exchange failed: %r %r" % (warm, wexc))
         env.agent.reboot()
         env.agent.log = []
         env.sender.calls = []
